@@ -3,6 +3,8 @@ import Mathlib.Tactic.Ring
 import Mathlib.Tactic.Linarith
 import Mathlib.Tactic.FieldSimp
 import Mathlib.Algebra.Order.Field.Basic
+import Mathlib.Tactic.Positivity
+import Mathlib.Tactic.LinearCombination
 /-!
 # C14 (round 3) — the bisection that places the apex of `ring`
 
@@ -93,6 +95,102 @@ below 10⁻⁶ -/
 theorem ring_bisect_frame (P1 P2 : K × K × K) :
     (ringBisectInit : (K × K × K) × (K × K × K)) = ((0, 0, 0), (0, 0, 10)) ∧ ringApex P1 P2 = mid3 P1 P2 ∧
     (ringStopThreshold : K) = 1 / 1000000 := ⟨rfl, rfl, rfl⟩
+
+/-! ## round 6: the defect is monotone along the axis, so the bisection meets the request within the stopping tolerance -/
+
+/-- apex at height z on the axis, rim points A = (1,0,0) and B = (c,s,0) on the unit circle: (A−P)·(B−P) = c + z² and
+|A−P|² = |B−P|² = 1 + z², i.e. the cosine of the apex angle is (c + z²)/(1 + z²) -/
+theorem apex_cos_formula (c s z : K) (h : c ^ 2 + s ^ 2 = 1) :
+    (1 - 0) * (c - 0) + (0 - 0) * (s - 0) + (0 - z) * (0 - z) = c + z ^ 2 ∧
+    (1 - 0) ^ 2 + (0 - 0) ^ 2 + (0 - z) ^ 2 = 1 + z ^ 2 ∧ (c - 0) ^ 2 + (s - 0) ^ 2 + (0 - z) ^ 2 = 1 + z ^ 2 := by
+  refine ⟨by ring, by ring, ?_⟩
+  linear_combination h
+
+/-- the cosine of the apex angle increases strictly with the height (for a rim angle that is not a full turn: c < 1) -/
+theorem apex_cos_strict_mono (c z z' : K) (hc : c < 1) (hz : 0 ≤ z) (hzz : z < z') :
+    (c + z ^ 2) / (1 + z ^ 2) < (c + z' ^ 2) / (1 + z' ^ 2) := by
+  have h1 : 0 < 1 + z ^ 2 := by positivity
+  have h2 : 0 < 1 + z' ^ 2 := by positivity
+  have key : (c + z' ^ 2) / (1 + z' ^ 2) - (c + z ^ 2) / (1 + z ^ 2) =
+      (z' ^ 2 - z ^ 2) * (1 - c) / ((1 + z ^ 2) * (1 + z' ^ 2)) := by
+    field_simp; ring
+  have hsq : 0 < z' ^ 2 - z ^ 2 := by nlinarith
+  have : 0 < (z' ^ 2 - z ^ 2) * (1 - c) / ((1 + z ^ 2) * (1 + z' ^ 2)) :=
+    div_pos (mul_pos hsq (by linarith)) (mul_pos h1 h2)
+  linarith
+
+/-- hence, for any strictly decreasing `acos`, the defect 2π − N·acos(cos of the apex angle) increases weakly with the height -/
+theorem ring_defect_monotone (pi c : K) (N : Nat) (acos : K → K) (hac : ∀ x y, x < y → acos y < acos x) (hc : c < 1)
+    (z z' : K) (hz : 0 ≤ z) (hzz : z ≤ z') :
+    2 * pi - (N : K) * acos ((c + z ^ 2) / (1 + z ^ 2)) ≤ 2 * pi - (N : K) * acos ((c + z' ^ 2) / (1 + z' ^ 2)) := by
+  rcases eq_or_lt_of_le hzz with rfl | hlt
+  · exact le_refl _
+  · have := hac _ _ (apex_cos_strict_mono c z z' hc hz hlt)
+    have hN : (0 : K) ≤ (N : K) := Nat.cast_nonneg N
+    nlinarith
+
+/-- the bracket stays on the axis, above the rim plane and ordered: invariant of `ringBisectStep` -/
+theorem ring_bisect_axis_invariant (pi : K) (ang : K × K × K → K × K × K → K × K × K → K) (N : Nat) (defect : K)
+    (A B P1 P2 : K × K × K) (h1 : P1.1 = 0 ∧ P1.2.1 = 0) (h2 : P2.1 = 0 ∧ P2.2.1 = 0) (h0 : 0 ≤ P1.2.2)
+    (h12 : P1.2.2 ≤ P2.2.2) :
+    let q := ringBisectStep pi ang N defect A B P1 P2
+    (q.1.1 = 0 ∧ q.1.2.1 = 0) ∧ (q.2.1 = 0 ∧ q.2.2.1 = 0) ∧ 0 ≤ q.1.2.2 ∧ q.1.2.2 ≤ q.2.2.2 := by
+  intro q
+  have spec := ring_bisect_step_spec pi ang N defect A B P1 P2
+  simp only at spec
+  obtain ⟨s1, s2, s3, s4⟩ := spec
+  by_cases c1 : defect > 2 * pi - (N : K) * ang A P2 B
+  · have e : q = _ := s1 c1
+    rw [e]; simp only [h2.1, h2.2, mul_zero, and_self, true_and]
+    constructor <;> linarith
+  · by_cases c2 : defect > 2 * pi - (N : K) * ang A (mid3 P1 P2) B
+    · have e : q = _ := s2 c1 c2
+      rw [e]; simp only [mid3, h1.1, h1.2, h2.1, h2.2, add_zero, zero_div, and_self, true_and]
+      constructor <;> linarith
+    · by_cases c3 : defect < 2 * pi - (N : K) * ang A (mid3 P1 P2) B
+      · have e : q = _ := s3 c1 c2 c3
+        rw [e]; simp only [mid3, h1.1, h1.2, h2.1, h2.2, add_zero, zero_div, and_self, true_and]
+        constructor <;> linarith
+      · have e : q = _ := s4 c1 c2 c3
+        rw [e]; exact ⟨h1, h2, h0, h12⟩
+
+/-- **the apex has the requested defect within the stopping tolerance** (PARTIAL). When the loop stops — bracket on the axis,
+request bracketed (`ring_bisect_bracket`, `ring_bisect_axis_invariant`), `|dfct P1 − dfct P2| < tol` (`ring_bisect_frame`: 10⁻⁶) —
+the returned apex `ringApex P1 P2` has `|dfct − defect| < tol`, PROVIDED `angle_3pts A P B = acos(cos of the apex angle)` for apexes
+on the axis with a strictly decreasing `acos` (the specification of `angle_3pts`: property C12).
+Missing for the full statement, exactly: (1) that specification of `angle_3pts` over ℝ with `Real.arccos` (C12 states it on the
+float implementation numerically only); (2) termination of the float loop in the stop state (rounding is not modelled). -/
+theorem ring_apex_defect_within_tolerance_partial (pi c tol defect : K) (N : Nat) (acos : K → K)
+    (ang : K × K × K → K × K × K → K × K × K → K) (A B P1 P2 : K × K × K)
+    (hac : ∀ x y, x < y → acos y < acos x) (hc : c < 1)
+    (hang : ∀ z, 0 ≤ z → ang A (0, 0, z) B = acos ((c + z ^ 2) / (1 + z ^ 2)))
+    (h1 : P1.1 = 0 ∧ P1.2.1 = 0) (h2 : P2.1 = 0 ∧ P2.2.1 = 0) (h0 : 0 ≤ P1.2.2) (h12 : P1.2.2 ≤ P2.2.2)
+    (hb1 : 2 * pi - (N : K) * ang A P1 B ≤ defect) (hb2 : defect ≤ 2 * pi - (N : K) * ang A P2 B)
+    (hstop : |(2 * pi - (N : K) * ang A P1 B) - (2 * pi - (N : K) * ang A P2 B)| < tol) :
+    |(2 * pi - (N : K) * ang A (ringApex P1 P2) B) - defect| < tol := by
+  obtain ⟨x1, y1, z1⟩ := P1
+  obtain ⟨x2, y2, z2⟩ := P2
+  simp only at h1 h2 h0 h12
+  obtain ⟨rfl, rfl⟩ := h1
+  obtain ⟨rfl, rfl⟩ := h2
+  have hm : ringApex ((0 : K), (0 : K), z1) (0, 0, z2) = (0, 0, (z1 + z2) / 2) := by
+    simp [ringApex]
+  rw [hm]
+  have hz2 : 0 ≤ z2 := le_trans h0 h12
+  have hmid0 : 0 ≤ (z1 + z2) / 2 := by linarith
+  rw [hang z1 h0] at hb1 hstop
+  rw [hang z2 hz2] at hb2 hstop
+  rw [hang _ hmid0]
+  let g : K → K := fun z => 2 * pi - (N : K) * acos ((c + z ^ 2) / (1 + z ^ 2))
+  have m1 : g z1 ≤ g ((z1 + z2) / 2) := ring_defect_monotone pi c N acos hac hc z1 _ h0 (by linarith)
+  have m2 : g ((z1 + z2) / 2) ≤ g z2 := ring_defect_monotone pi c N acos hac hc _ z2 hmid0 (by linarith)
+  simp only [g] at m1 m2
+  rw [abs_lt] at hstop ⊢
+  constructor <;> linarith
+
+/-- non-vacuity of the hypotheses over ℚ: `acos x = −x` is strictly decreasing; the cosine formula at c = 0, z = 1, 2 -/
+example : ((0 : ℚ) + 1 ^ 2) / (1 + 1 ^ 2) < (0 + 2 ^ 2) / (1 + 2 ^ 2) := apex_cos_strict_mono 0 1 2 (by norm_num) (by norm_num) (by norm_num)
+example : ∀ x y : ℚ, x < y → (fun t => -t) y < (fun t => -t) x := fun x y h => by simpa using h
 
 end ordered
 end Mouette.Props.C14
